@@ -132,6 +132,23 @@ Proof.
 Qed.
 Print Assumptions c06_acn_walkers_return.
 
+(* DecodeAddress (libs/acn/DMPAddress.cpp) for the only combination a received datagram can reach
+   (DMPE131Inflator::HandlePDUData returns unless Size() == TWO_BYTES && Type() == RANGE_EQUAL): on a buffer of any
+   size holding n bytes it reads nothing at or beyond n.  For this combination the code as it is and the proposed
+   fix coincide (`decode_address` differs from the unchanged code only for NON_RANGE two-/four-byte addresses). *)
+Theorem c06_acn_decode_address : forall buf n z,
+  bytes_ok buf = true -> n <= len buf -> run buf (decode_address DMP_TWO_BYTES DMP_RANGE_EQUAL n) <> Hazard z.
+Proof. intros buf n z Hb Hn. apply (bounded_no_hazard n); auto. apply decode_address_bounded. Qed.
+Print Assumptions c06_acn_decode_address.
+
+(* with the proposed, UNAPPLIED fix (fixes-optional-not-applied/03: NON_RANGE copies one field, not three) the same
+   holds for every address size and type; in the unchanged tree NON_RANGE two-/four-byte addresses read 6 / 12 bytes
+   after checking 2 / 4 - a latent defect of the library function that no received datagram can reach *)
+Theorem c06_acn_decode_address_proposedfix : forall buf size typ n z,
+  bytes_ok buf = true -> n <= len buf -> run buf (decode_address size typ n) <> Hazard z.
+Proof. intros buf size typ n z Hb Hn. apply (bounded_no_hazard n); auto. apply decode_address_bounded. Qed.
+Print Assumptions c06_acn_decode_address_proposedfix.
+
 (* independent of the capacity and of what the socket layer reports: for a receive buffer of ANY size and ANY reported
    length n < 2^31 the handler returns (its loops end within their fuel: PDU block walks: fuel = block length + 1, each PDU advances the offset by at least its 2-byte length field; discovery page walk: 2 bytes per turn) and never divides by zero; and if
    the buffer does hold n bytes it reads nothing at or beyond n *)
